@@ -1,30 +1,360 @@
 /-
-  Property C10 — RFC 6902 input is read faithfully.
-  Statement file (proofs in JdProofs/PatchParseBack.lean, composed with PatchRender and StrictPatch).
+  Property C10 — RFC 6902 input is read faithfully (never more permissive than the RFC).
+  Statement file (proofs in JdProofs/PatchNeverMorePermissive.lean, namespace `Jd.NMP`: the main claim
+  and parse-back with the full reader; JdProofs/PatchParseBack.lean, namespace `Jd.PB`: parse-back for
+  the element loop, composed there with PatchRender and StrictPatch).
 
-  `renderPatchOps d` = the operations jd's RenderPatch emits for a diff; `readPatchLoop` = the element
-  loop of jd's ReadPatchString (context inference + coalescing) on a list of operations.
-  Domain `PBwf d` (Bool, decidable up to the float comparison inside `equals`): strict hunks, key/index
-  paths expressible as JSON Pointers, indices in [0, 2^53), at most one line of context per side,
-  self-equal removed values, adjacent hunks on different paths (or the second with its own context) —
-  what list-mode `Diff` produces: 162 409 model diffs were all inside it.
+  Model side (JdModel/PatchFmt.lean, JdModel/Pointer.lean):
+    `readPatchOps ops`   `ReadPatchString` on the list of operations `{op, path, value}`: the element
+                         loop `readPatchLoop` (context inference from up to three consecutive
+                         operations, coalescing of same-path elements), THEN `checkPatchContext` on
+                         every element with the operations it consumed as context (`ctxOf`) — the
+                         repair of D28, below;
+    `readPatchDoc doc`   the same from the parsed JSON document of the patch text (`patchOpsOfJson`);
+    `readPointer s`      jd's JSON Pointer reader (`strconv.Atoi` on the tokens, `-` = append);
+    `writePointerPath`, `renderPatchOps d`   what `Diff.RenderPatch` writes; `patchM t d` = `t.Patch(d)`.
+  Spec side: `eval t (ops.map PatchOp.toSpec)` (JdSpec/Rfc6902.lean), an evaluator of RFC 6902 written
+  from the RFC, independent of jd; `parsePointer` (RFC 6901). Results are compared up to the Go dynamic
+  type of array nodes (`untag`).
 
-  PROVED: (1) PARSE-BACK: reading jd's own output gives the diff back in normal form `normPB d`
-  (boundary markers made explicit; an add-only hunk with boundary context loses its markers);
-  (2) the read-back diff applies wherever the original applies, with the same result — on the reference
-  interpreter and on the library's `patchM` (up to array type tags): "reading jd's own JSON Patch
-  output and applying it to a reproduces b" once composed with C01;
-  (3) with C09 (`rendered_patch_simulates_native`): on every document where the original diff applies,
-  RFC 6902 evaluation of the same operations gives the same result, i.e. on jd's own output jd and the
-  RFC evaluation agree.
-  NOT PROVED: "never more permissive than RFC 6902" for arbitrary patches of the supported grammar
-  (variations of jd's output); that clause is checked by the oracle of ./check C10 on seven variation
-  operators x perturbed targets.
+  THE MAIN STATEMENT (section 1): `never_more_permissive` — for EVERY list of operations `ops` that
+  `ReadPatchString` accepts, on every document `t`: if `t.Patch` of what was read succeeds with `r`,
+  the RFC 6902 evaluation of THE SAME operations on `t` succeeds with the same result. jd may be
+  stricter, never more permissive or different. It is not restricted to jd's own output or to a
+  grammar of variations: the quantifier is over all accepted operation lists.
+    `never_more_permissive_rfc6901`         the pointer hypothesis stated with the independent RFC 6901
+                                            parser, the range hypothesis in minimal form;
+    `never_more_permissive_from_entry_point` from the parsed patch document (`readPatchDoc`);
+    `checked_patch_never_more_permissive`    every hypothesis as ONE executable predicate
+                                            `NMP.checkedPatch ops : Bool`; `grammar_is_checked`: jd's own
+                                            layout (grammar `NMP.Gwf`) satisfies it;
+    `accepted_patch_is_faithful`            WHY it holds: what the reader accepts is a fixed point of
+                                            read-then-write (`NMP.Faithful d ops`: re-rendering the diff
+                                            read gives the operations back, up to the value member of
+                                            `remove`, which RFC 6902 ignores);
+    `reader_element_shapes`                 the nine ways the reader forms one element: which
+                                            operations are consumed as context, which as edits.
+
+  THE DEFECT THIS PROOF FOUND, AND ITS REPAIR (D28; /repo commit dca0b4d "check that JSON Patch
+  context tests are adjacent to the edit"). The first proof of the theorem needed the HYPOTHESIS
+  `Faithful d ops`; it was not an artefact: the element loop took `test` operations in front of an
+  edit for context lines looking only at the LAST index of their pointers, and jd applied patches
+  that RFC 6902 rejects (or applied them differently). Witnesses were proved on the model and
+  replayed on the Go code; the reader now runs `checkPatchContext`, the hypothesis is a THEOREM
+  (`accepted_patch_is_faithful`), and the witnesses are kept as REGRESSIONS (section 3): the reader
+  rejects each of them.
+    `fixed_context_of_another_array`             `test /a/0 "x"; add /b/1 "y"` (a test of ANOTHER array);
+    `fixed_non_test_taken_as_context`            `test /1 "b"; remove /3; add /2 "x"` (not a `test`);
+    `fixed_context_indices_unchecked`            `test /0 "a"; test /5 "b"; add /3 "x"` (unrelated indices);
+    `fixed_after_context_vs_coalesced_removals`  after-context test vs removals coalesced later;
+    `fixed_unrestricted_goal_witness`            the witness that refuted the unrestricted goal is no
+                                                 longer read at all.
+  (What the element loop ALONE does with these witnesses is kept in the proof file: `NMP.loop_alone_…`.)
+
+  OBSERVATIONS, NOT FINDINGS (section 4): RFC 6901 TOKEN SYNTAX. `readPointer` parses index tokens with
+  `strconv.Atoi` and unescapes with the jsonpointer library, both more lenient than RFC 6901: the
+  pointers `/01` (leading zero), slash-minus-one (a sign; jd reads it as "append") and `/~2` (an escape
+  the RFC does not allow) are accepted and applied by jd and rejected by the RFC
+  (`observation_noncanonical_index_tokens`, `observation_invalid_escape_accepted`). The property
+  quantifies over `RenderPatch` output and variations of its VALUES, INDICES, HUNKS and CONTEXT TESTS,
+  never over the spelling of a reference token, so these are outside its grammar. They are exactly
+  what the decidable hypothesis on the pointer TEXTS excludes, and it cannot be dropped
+  (`observation_canonical_pointers_needed`, `observation_pointers_not_canonical`):
+    `NMP.canonPtr s`          Bool: `readPointer s = .ok p`, `p` consists of keys and indices in
+                              [−1, 2^53), and `writePointerPath p` writes `s` back (the text is what
+                              jd itself writes);
+    `NMP.canonicalPointer s`  Bool, in RFC 6901 terms only: `parsePointer` accepts `s` and every token
+                              that `strconv.Atoi` accepts is the decimal text of an index in [0, 2^53);
+                              it implies `canonPtr` (`canonical_pointer_rfc6901`).
+
+  PARSE-BACK, "reading jd's own JSON Patch output and applying it to a reproduces b" (section 2), with
+  the reader AFTER the repair: `own_layout_passes_context_check` (every diff of the grammar `NMP.Gwf`:
+  jd's layout per hunk, any values, any indices in [0, 2^53), appends at `-`),
+  `own_output_reads_back_full_reader`, `render_read_patch_full_reader` (domain `PBwf` of list-mode
+  diffs, through the library's `Patch`), `grammar_accepted_and_never_more_permissive`. Section 5 keeps
+  the earlier statements about the element loop alone (`readPatchLoop`), which are still true and are
+  what the full-reader statements are proved from.
+
+  HYPOTHESES and why
+    `FloatLaws` (symmetry / reflexivity of IEEE `|x − y| ≤ eps`, opaque to the kernel): a context `test`
+       compares document and patch value in the other order than jd's patch does;
+    `FloatEq0` (`|x − y| ≤ +0` only for `x = y`): the reader coalesces two elements, and
+       `checkPatchContext` compares the parents of context pointers, by `Equals` on paths whose index
+       elements are float64; without the law nothing excludes that `/1` and `/2` are coalesced;
+    `t.wf`, `t.listDoc`: unique sorted keys (Go map), no set / multiset typed node: the domain of C03
+       (the library's `Patch` = documented meaning of strict hunks) and of the RFC simulation;
+    `NMP.valueOK o.value` (Bool): not the void marker, well-formed, list-mode — what `json.Unmarshal`
+       produces (derived from the parsed document in `never_more_permissive_from_entry_point`);
+    `NMP.canonPtr o.path` / `NMP.canonicalPointer o.path`: see OBSERVATIONS; holds of jd's own output;
+    `HunkRange h` for the elements read (indices written below 2^53: they travel through a float64);
+       for accepted canonical patches it reduces to `i + |Remove| < 2^53`
+       (`never_more_permissive_rfc6901`);
+    `PBwf d`, `NMP.Gwf d` (Bool): the domain of parse-back — strict hunks, key / index paths
+       expressible as JSON Pointers, at most one line of context per side, adjacent hunks told apart.
+    An element at the append index (`-`) that removes, or an `add` at `-` after context tests, is
+    NOT excluded by a hypothesis: where the reader accepts them jd's `Patch` never applies them, so
+    the main statement holds for them too.
+
+  NOT PROVED / OUTSIDE: the text layer around the operations (JSON decoding of the patch document is
+  `json.Unmarshal`, external; `never_more_permissive_from_entry_point` starts from the parsed
+  document); operations other than `test` / `remove` / `add` (the reader rejects them); pointer texts
+  in non-canonical spelling (observations above); set / multiset readings (C10 is a list-mode
+  property). The converse (jd accepts whatever the RFC accepts) is not claimed: jd may be stricter.
 -/
 import JdProofs.PatchParseBack
+import JdProofs.PatchNeverMorePermissive
+
+set_option autoImplicit false
 
 namespace Jd.Props.C10
 open Jd Jd.Spec Jd.PB
+
+/-! ## 1. Never more permissive than RFC 6902: every operation list the reader accepts
+
+  Names of `Jd.NMP` are written qualified. -/
+
+/-- **C10, the main statement.** For EVERY list of operations `ops` (real values, pointer texts in the
+    spelling jd writes) that `ReadPatchString` accepts, reading the diff `d`: on every document `t`, if
+    `t.Patch(d)` succeeds with `r`, then the independent RFC 6902 evaluation of the same operations on
+    `t` succeeds with the same result (up to the Go type of array nodes) -/
+theorem never_more_permissive (L : FloatLaws) (F : FloatEq0) {ops : List PatchOp}
+    {d : Diff} {t r : Json} (hw : t.wf = true) (hl : t.listDoc = true)
+    (hv : ∀ o ∈ ops, NMP.valueOK o.value = true) (hc : ∀ o ∈ ops, NMP.canonPtr o.path = true)
+    (hread : readPatchOps ops = .ok d) (hrange : ∀ h ∈ d, HunkRange h)
+    (hp : patchM t d = .ok r) :
+    ∃ r', eval t (ops.map PatchOp.toSpec) = some r' ∧ untag r' = untag r :=
+  NMP.readPatchOps_never_more_permissive L F hw hl hv hc hread hrange hp
+
+/-- the same with the hypothesis on the pointers in RFC 6901 terms only (`NMP.canonicalPointer`: the
+    independent parser accepts the text, and a token `strconv.Atoi` accepts is the decimal text of an
+    index in [0, 2^53)) and the range hypothesis in minimal form: `i + |Remove|`, the index of the
+    after-context line, is below 2^53 for every element read -/
+theorem never_more_permissive_rfc6901 (L : FloatLaws) (F : FloatEq0)
+    {ops : List PatchOp} {d : Diff} {t r : Json} (hw : t.wf = true) (hl : t.listDoc = true)
+    (hv : ∀ o ∈ ops, NMP.valueOK o.value = true)
+    (hc : ∀ o ∈ ops, NMP.canonicalPointer o.path = true)
+    (hread : readPatchOps ops = .ok d)
+    (hafter : ∀ h ∈ d, ∀ i, lastIdx? h.path = some i → i + (h.remove.length : Int) < 2 ^ 53)
+    (hp : patchM t d = .ok r) :
+    ∃ r', eval t (ops.map PatchOp.toSpec) = some r' ∧ untag r' = untag r :=
+  NMP.readPatchOps_never_more_permissive_rfc6901 L F hw hl hv hc hread hafter hp
+
+/-- the RFC 6901 form of the pointer hypothesis implies the round-trip form (`readPointer` accepts
+    the text and `writePointerPath` writes it back) -/
+theorem canonical_pointer_rfc6901 {s : String} (h : NMP.canonicalPointer s = true) :
+    NMP.canonPtr s = true :=
+  NMP.canonPtr_of_canonicalPointer h
+
+/-- from the entry point: the hypotheses on the parsed JSON document of the patch are what
+    `json.Unmarshal` gives (unique keys, plain arrays, no void marker) -/
+theorem never_more_permissive_from_entry_point (L : FloatLaws) (F : FloatEq0) {doc : Json}
+    {ops : List PatchOp} {d : Diff} {t r : Json} (hw : t.wf = true) (hl : t.listDoc = true)
+    (hdw : doc.wf = true) (hdl : doc.listDoc = true) (hdv : Yaml.voidFree doc = true)
+    (hdoc : patchOpsOfJson doc = .ok ops) (hc : ∀ o ∈ ops, NMP.canonPtr o.path = true)
+    (hread : readPatchDoc doc = .ok d) (hrange : ∀ h ∈ d, HunkRange h)
+    (hp : patchM t d = .ok r) :
+    ∃ r', eval t (ops.map PatchOp.toSpec) = some r' ∧ untag r' = untag r :=
+  NMP.readPatchDoc_never_more_permissive L F hw hl hdw hdl hdv hdoc hc hread hrange hp
+
+/-- every hypothesis as ONE executable predicate on the operations (`NMP.checkedPatch`: real values,
+    canonical pointers, accepted by `ReadPatchString`, indices written below 2^53): the patch is read,
+    and wherever jd applies what was read, RFC 6902 agrees -/
+theorem checked_patch_never_more_permissive (L : FloatLaws) (F : FloatEq0) {ops : List PatchOp}
+    {t : Json} (hf : NMP.checkedPatch ops = true) (hw : t.wf = true) (hl : t.listDoc = true) :
+    ∃ d, readPatchOps ops = .ok d ∧
+      ∀ r, patchM t d = .ok r →
+        ∃ r', eval t (ops.map PatchOp.toSpec) = some r' ∧ untag r' = untag r :=
+  NMP.checkedPatch_never_more_permissive L F hf hw hl
+
+/-- the predicate is not empty: jd's own layout for every diff of the grammar `NMP.Gwf` (with real
+    values) satisfies it -/
+theorem grammar_is_checked (L : FloatLaws) (F : FloatEq0) {d0 : Diff} {ops : List PatchOp}
+    (hG : NMP.Gwf d0 = true) (hr : NMP.rerender d0 = .ok ops)
+    (hv : ∀ o ∈ ops, NMP.valueOK o.value = true) : NMP.checkedPatch ops = true :=
+  NMP.grammar_checkedPatch L F hG hr hv
+
+/-- **why the main statement holds — the former hypothesis, now a theorem about the reader.** What
+    `ReadPatchString` accepts is a fixed point of read-then-write: re-rendering the diff read gives
+    the operations back (`NMP.Faithful d ops` = `∃ ops', NMP.rerender d = .ok ops' ∧ Forall₂ NMP.OpSim
+    ops' ops`; `OpSim`: same `op`, same `path`, same `value` unless the op is `remove`). In particular
+    every `test` consumed as a context line is the test jd writes for that line. (`happ`: an element
+    at the append index does not remove; such an element never applies.) -/
+theorem accepted_patch_is_faithful (F : FloatEq0) {ops : List PatchOp} {d : Diff}
+    (hv : ∀ o ∈ ops, o.value.isVoid = false) (hc : ∀ o ∈ ops, NMP.canonPtr o.path = true)
+    (hread : readPatchOps ops = .ok d)
+    (happ : ∀ h ∈ d, lastIdx? h.path = some (-1) → h.remove = []) : NMP.Faithful d ops :=
+  NMP.readPatchOps_faithful F hv hc hread happ
+
+/-- **what the reader consumes, and as what**: whenever `readPatchDiffElement` (`readPatchHunk`)
+    succeeds, the operations it consumed (`g`), the element it built and the operations it
+    remembers as context (`ctxOf`) are in one of the nine shapes of `NMP.Shape`: `add`; `test`+`remove`
+    at a key / at an index; one context `test` + `add` (after / before); two context operations +
+    `add` / + `test`+`remove`; one context `test` + `test`+`remove` (after / before) -/
+theorem reader_element_shapes {patch : List PatchOp} {e : Hunk} {rest : List PatchOp}
+    (h : readPatchHunk patch = .ok (e, rest)) (hnv : ∀ o ∈ patch, o.value.isVoid = false) :
+    ∃ g, patch = g ++ rest ∧ NMP.Shape g e (ctxOf patch) :=
+  NMP.readPatchHunk_shape h hnv
+
+/-! ## 2. Parse-back of jd's own output with the reader after the repair -/
+
+/-- jd's own layout passes the new context check: for every diff `d0` of the grammar `NMP.Gwf`,
+    `ReadPatchString` reads the operations jd writes for `d0` (`NMP.rerender`: `renderPatchHunk`, an
+    append hunk listing its values in application order) to the normal form of `d0` -/
+theorem own_layout_passes_context_check (L : FloatLaws) (F : FloatEq0) (d0 : Diff)
+    (hG : NMP.Gwf d0 = true) (ops : List PatchOp) (h : NMP.rerender d0 = .ok ops) :
+    readPatchOps ops = .ok (d0.map NMP.normG) :=
+  NMP.readPatchOps_rerender L F d0 hG ops h
+
+/-- `ReadPatchString` reads what `Diff.RenderPatch` writes for a diff of the domain `PBwf` back to the
+    diff in normal form (`own_output_reads_back` of section 5, for the full reader) -/
+theorem own_output_reads_back_full_reader (L : FloatLaws) (F : FloatEq0) (d : Diff)
+    (hwf : PBwf d = true) (ops : List PatchOp) (h : renderPatchOps d = .ok ops) :
+    readPatchOps ops = .ok (normPB d) :=
+  NMP.readPatchOps_render L F d hwf ops h
+
+/-- **"reading jd's own JSON Patch output and applying it to a reproduces b"**: if the diff turns `a`
+    into `b` (documented meaning of hunks; for `d = a.Diff(b)` this is C01), then what
+    `ReadPatchString` reads from `RenderPatch(d)`, applied to `a` by the library's `Patch`, gives `b`
+    (up to the Go type of array nodes) -/
+theorem render_read_patch_full_reader (L : FloatLaws) (F : FloatEq0) (d : Diff)
+    (hwf : PBwf d = true) (hs : d.all jdShaped = true) (hld : d.all hunkListDoc = true)
+    (ops : List PatchOp) (h : renderPatchOps d = .ok ops)
+    (a b : Json) (ha : a.listDoc = true) (hab : applyStrictAll a d = some b) :
+    ∃ d' r, readPatchOps ops = .ok d' ∧ patchM a d' = .ok r ∧ untag r = untag b :=
+  NMP.readPatchOps_render_patch L F d hwf hs hld ops h a b ha hab
+
+/-- on the grammar the two halves together: `ReadPatchString` ACCEPTS jd's own layout, and wherever
+    jd's `Patch` applies what was read, RFC 6902 evaluation of the operations agrees -/
+theorem grammar_accepted_and_never_more_permissive (L : FloatLaws) (F : FloatEq0) {d0 : Diff}
+    {ops : List PatchOp} {t : Json}
+    (hG : NMP.Gwf d0 = true) (hr : NMP.rerender d0 = .ok ops)
+    (hv : ∀ o ∈ ops, NMP.valueOK o.value = true) (hw : t.wf = true) (hl : t.listDoc = true) :
+    readPatchOps ops = .ok (d0.map NMP.normG) ∧
+    ∀ r, patchM t (d0.map NMP.normG) = .ok r →
+      ∃ r', eval t (ops.map PatchOp.toSpec) = some r' ∧ untag r' = untag r :=
+  NMP.grammar_never_more_permissive L F hG hr hv hw hl
+
+/-! ## 3. Regressions of the repaired defect D28 (the reader now REJECTS every former witness)
+
+  `tst s v`, `rmv s v`, `adp s v` are the operations `test` / `remove` / `add` at the pointer `s` with
+  value `v` (`Jd.PB`). What the element loop alone made of each witness, what jd's `Patch` then did
+  and what RFC 6902 gives is proved in JdProofs/PatchNeverMorePermissive.lean (`NMP.loop_alone_…`). -/
+
+/-- F1, `NMP.w1Ops` = `test /a/0 "x"; add /b/1 "y"`: the test of `a[0]` was taken as the before-context
+    of the edit of `b` (jd checked `b[0]` and applied; RFC 6902 tests `a[0]` and rejects on
+    `{"a":["z"],"b":["x"]}`). Now: rejected, the parent of the context test is not the parent of the
+    edit -/
+theorem fixed_context_of_another_array :
+    NMP.w1Ops = [tst "/a/0" (.str "x"), adp "/b/1" (.str "y")] ∧ readPatchOps NMP.w1Ops = .err :=
+  ⟨rfl, NMP.fixed_context_of_another_array⟩
+
+/-- F2, `NMP.w2Ops` = `test /1 "b"; remove /3; add /2 "x"`: the `remove` was taken as the after-context
+    line of the `add` and NOT executed. Now: rejected, the operation taken as after-context is not
+    a `test` -/
+theorem fixed_non_test_taken_as_context :
+    NMP.w2Ops = [tst "/1" (.str "b"), rmv "/3" (.str "c"), adp "/2" (.str "x")] ∧
+    readPatchOps NMP.w2Ops = .err :=
+  ⟨rfl, NMP.fixed_non_test_taken_as_context⟩
+
+/-- F3, `NMP.w3Ops` = `test /0 "a"; test /5 "b"; add /3 "x"`: only `3 ≤ 5` was checked; jd compared
+    the context lines with the elements at 2 and 3, RFC 6902 tests the elements at 0 and 5. Now:
+    rejected, the before test is at 0, not at 3 − 1 -/
+theorem fixed_context_indices_unchecked :
+    NMP.w3Ops = [tst "/0" (.str "a"), tst "/5" (.str "b"), adp "/3" (.str "x")] ∧
+    readPatchOps NMP.w3Ops = .err :=
+  ⟨rfl, NMP.fixed_context_indices_unchecked⟩
+
+/-- F3b, `NMP.w7Ops` = `test /0 "b"; test /2 "a"; test /1 "r1"; remove /1; test /1 "r2"; remove /1`:
+    jd checked the after-context AFTER both (coalesced) removals, RFC 6902 before them. Now:
+    rejected — the check runs once the elements are complete, with the removals coalesced into
+    the element (`1 + 2 = 3 ≠ 2`). (`FloatLaws`: reading this patch coalesces two elements, which
+    compares their paths with the opaque float `Equals`.) -/
+theorem fixed_after_context_vs_coalesced_removals (L : FloatLaws) :
+    NMP.w7Ops = [tst "/0" (.str "b"), tst "/2" (.str "a"), tst "/1" (.str "r1"),
+      rmv "/1" (.str "r1"), tst "/1" (.str "r2"), rmv "/1" (.str "r2")] ∧
+    readPatchOps NMP.w7Ops = .err :=
+  ⟨rfl, NMP.fixed_after_context_vs_coalesced_removals L⟩
+
+/-- the witness that refuted the main statement for the element loop alone
+    (`NMP.loop_alone_unrestricted_goal_is_false`) no longer reaches `Patch`: nothing is read from it -/
+theorem fixed_unrestricted_goal_witness : ¬ ∃ d, readPatchOps NMP.w1Ops = .ok d :=
+  NMP.fixed_unrestricted_goal_witness
+
+/-! ## 4. Observations: RFC 6901 token syntax (outside the grammar the property quantifies over)
+
+  `NMP.w4Ops` = `add` at the pointer slash-zero-one, `NMP.w5Ops` = `add` at the pointer slash-minus-one,
+  `NMP.w6Ops` = `add` at the pointer slash-tilde-two, each with the value `"x"`; `NMP.w4Doc` = `["a","b"]`. -/
+
+/-- index tokens outside the RFC 6901 grammar (`strconv.Atoi` accepts a leading zero and a sign): jd
+    reads slash-zero-one as index 1 and inserts there, reads slash-minus-one as "append"; RFC 6902
+    rejects both patches -/
+theorem observation_noncanonical_index_tokens :
+    (readPatchOps NMP.w4Ops = .ok NMP.w4Diff ∧
+     (∃ r, patchM NMP.w4Doc NMP.w4Diff = .ok r ∧
+       untag r = .arr .raw [.str "a", .str "x", .str "b"]) ∧
+     eval NMP.w4Doc (NMP.w4Ops.map PatchOp.toSpec) = none) ∧
+    (readPatchOps NMP.w5Ops = .ok NMP.w5Diff ∧
+     (∃ r, patchM NMP.w4Doc NMP.w5Diff = .ok r ∧
+       untag r = .arr .raw [.str "a", .str "b", .str "x"]) ∧
+     eval NMP.w4Doc (NMP.w5Ops.map PatchOp.toSpec) = none) :=
+  NMP.observation_noncanonical_index_tokens
+
+/-- an escape RFC 6901 does not allow (`~` not followed by 0 or 1 is kept as text): on `{}` jd adds
+    the member named tilde-two, RFC 6901 rejects the pointer -/
+theorem observation_invalid_escape_accepted :
+    readPatchOps NMP.w6Ops = .ok NMP.w6Diff ∧
+    (∃ r, patchM (.obj []) NMP.w6Diff = .ok r ∧ untag r = .obj [("~2", .str "x")]) ∧
+    eval (.obj []) (NMP.w6Ops.map PatchOp.toSpec) = none :=
+  NMP.observation_invalid_escape_accepted
+
+/-- none of the three pointer texts is canonical (jd writes the three paths back as slash-one,
+    slash-dash and slash-tilde-zero-two): the hypothesis `canonPtr` excludes exactly these -/
+theorem observation_pointers_not_canonical :
+    NMP.canonPtr "/01" = false ∧ NMP.canonPtr "/-1" = false ∧ NMP.canonPtr "/~2" = false :=
+  NMP.observation_pointers_not_canonical
+
+/-- … and it cannot be dropped from the main statement (witness: the pointer slash-zero-one) -/
+theorem observation_canonical_pointers_needed :
+    ¬ (∀ (ops : List PatchOp) (d : Diff) (t r : Json), t.wf = true → t.listDoc = true →
+        (∀ o ∈ ops, NMP.valueOK o.value = true) →
+        readPatchOps ops = .ok d → (∀ h ∈ d, HunkRange h) → patchM t d = .ok r →
+        ∃ r', eval t (ops.map PatchOp.toSpec) = some r' ∧ untag r' = untag r) :=
+  NMP.observation_canonical_pointers_needed
+
+/-! ## Non-vacuity of sections 1 and 2
+
+  `NMP.exOps` = `test /0 "a"; test /2 "c"; test /1 "b"; remove /1; add /1 "x"` (a replacement with both
+  context lines, what `RenderPatch` writes for `NMP.exDiff`), `NMP.exDoc` = `["a","b","c"]`: every
+  hypothesis of the main statement holds (`ex_values`, `ex_canon`, `ex_readOps`, `ex_range`), jd's
+  `Patch` applies (`ex_patch`), so the theorem speaks about an actual run. -/
+
+example (L : FloatLaws) (F : FloatEq0) :
+    (∀ o ∈ NMP.exOps, NMP.valueOK o.value = true) ∧ (∀ o ∈ NMP.exOps, NMP.canonPtr o.path = true) ∧
+    readPatchOps NMP.exOps = .ok NMP.exDiff ∧ (∀ h ∈ NMP.exDiff, HunkRange h) ∧
+    NMP.Gwf NMP.exDiff = true ∧ PBwf NMP.exDiff = true ∧
+    renderPatchOps NMP.exDiff = .ok NMP.exOps :=
+  ⟨NMP.ex_values, NMP.ex_canon, NMP.ex_readOps L F, NMP.ex_range, NMP.ex_gwf, NMP.ex_pbwf,
+    NMP.ex_render⟩
+
+example (L : FloatLaws) (F : FloatEq0) : ∃ r r', patchM NMP.exDoc NMP.exDiff = .ok r ∧
+    eval NMP.exDoc (NMP.exOps.map PatchOp.toSpec) = some r' ∧ untag r' = untag r := by
+  obtain ⟨r, hr, _⟩ := NMP.ex_patch
+  obtain ⟨r', h1, h2⟩ := never_more_permissive L F (t := NMP.exDoc) (by decide) (by decide)
+    NMP.ex_values NMP.ex_canon (NMP.ex_readOps L F) NMP.ex_range hr
+  exact ⟨r, r', hr, h1, h2⟩
+
+/-! ## 5. Parse-back, the element loop alone (JdProofs/PatchParseBack.lean)
+
+  `readPatchLoop (ops.length + 1) ops []` is the element loop of `ReadPatchString` without the context
+  check; `readPatchOps ops = .ok d` implies `readPatchLoop … = .ok d`. Domain `PBwf d` (Bool): strict
+  hunks, key / index paths expressible as JSON Pointers, indices in [0, 2^53), at most one line of
+  context per side, self-equal removed values, adjacent hunks on different paths (or the second
+  with its own context) — what list-mode `Diff` produces: 162 409 model diffs were all inside it. -/
+
+/-- the full reader only ever returns what the element loop read (the context check filters) -/
+theorem full_reader_returns_what_the_loop_read {ops : List PatchOp} {d : Diff}
+    (h : readPatchOps ops = .ok d) : readPatchLoop (ops.length + 1) ops [] = .ok d :=
+  NMP.readPatchOps_loop h
 
 /-- reading the operations jd rendered gives the diff back (normal form) -/
 theorem own_output_reads_back (L : FloatLaws) (d : Diff) (hwf : PBwf d = true) (ops : List PatchOp)
